@@ -90,7 +90,7 @@ func c08Build(cfg map[string]interface{}, rng *rand.Rand) (p4 string, grid [][2]
 		lats = []float64{lat1 - math.Copysign(8, lat1), lat1, (lat1 + lat2) / 2, lat2 + math.Copysign(10, lat2)}
 	case "tmerc":
 		s += " +lat_0=" + F(r(-30, 30)) + " +lon_0=" + F(lon0) + " +k=" + F(r(0.9992, 1.0)) + " +x_0=" + F(r(0, 1e6)) + " +y_0=" + F(r(0, 1e6))
-		lats = []float64{-70, -20, 0.25, 45, 80}
+		lats = []float64{-70, -20, -1.1, 0.25, 0.6, 0.9, 1.3, 1.6, 45, 80} // dense near the equator: the footpoint iteration is slowest there
 	case "utm":
 		zone := 1 + rng.Intn(60)
 		if hasHome {
@@ -100,9 +100,9 @@ func c08Build(cfg map[string]interface{}, rng *rand.Rand) (p4 string, grid [][2]
 		s += fmt.Sprintf(" +zone=%d", zone)
 		if b, _ := cfg["south"].(bool); b || (hasHome && home[1] < 0) {
 			s += " +south"
-			lats = []float64{-79, -45, -10, -0.5}
+			lats = []float64{-79, -45, -10, -1.6, -1.2, -0.8, -0.5}
 		} else {
-			lats = []float64{0.5, 10, 45, 83}
+			lats = []float64{0.5, 0.7, 1.0, 1.4, 1.7, 10, 45, 83}
 		}
 	case "krovak":
 		lon0 = 24.833333 // the projection's own origin (Ferro-referenced constants are built in)
